@@ -63,8 +63,8 @@ CHECKS = {
     text="Lean theorems (corollaries of C01's search): every acceptable winner has between 2 and max_n_mod groups (missing-value group included in stage 2), every group "
          "reaches min_freq_mod on the table the search ran on, and on a dev sample the frequency, distinct-rate and rank conditions hold. The property itself is judged on the "
          "implementation's transform output alone (label counts and exact shares on train and dev, missing outputs, label sets, rate ranking), and the same cases go through the Lean model of the search. "
-         "Row-level theorems (stage1_rows, stage2_rows, dev_rows, transform_label_is_groupIdx): when the table counts the rows of the base-discretized column (checked on the code's own _aggregator), "
-         "the rows that transform sends to each label are at least min_freq_mod of the column, there are at most max_n_mod labels, and every label is present on the dev sample.",
+         "Row-level theorems (stage1_rows, stage2_rows, dev_rows, rates_rows, transform_label_is_groupIdx): when the table counts the rows of the base-discretized column (checked on the code's own _aggregator), "
+         "the rows that transform sends to each label are at least min_freq_mod of the column, there are at most max_n_mod labels, every label is present on the dev sample, and the rates that are compared and ranked are the means of the target over the rows of each label.",
     ref="DESIGN.md section 8 C02", technique="Lean 4 proof (corollaries of the search theorems) + direct judgement of transform output + model/code correspondence",
     note=BASE_NOTE + " Rate ties in the ranking are counted as ambiguous, not as violations."),
  "C03": dict(
